@@ -83,6 +83,14 @@ def real_compositions(chk, stats):
             for b in opts:
                 shutil.rmtree(folder, ignore_errors=True)
                 folder.mkdir(parents=True)
+                prefilled = count % 2 == 1
+                if prefilled:
+                    # the folder already holds the checkpoint of ANOTHER calibration (other loss, other line-up, other seed):
+                    # the run that is stopped and resumed in it must not pick up anything from it
+                    other = {"kinds": [("uniform", 2), ("halton", 1)], "nparams": spec["nparams"], "E": 1, "seed": 99,
+                             "loss": next(x for x in ("fourier", "minkowski", "msm") if x != spec["loss"]), "rl": False}
+                    rl.run_segments(other, [2], [], folder=str(folder))
+                    stats["real_runs_in_a_used_folder"] += 1
                 h = rl.run_segments(spec, comp, list(b), folder=str(folder), ctor_seed_shift=0)
                 count += 1
                 stats["real_runs"] += 1
@@ -90,8 +98,43 @@ def real_compositions(chk, stats):
                 if d:
                     chk.violation({"kind": "oracle", "clause": "real-resume-differs", "boundary": "restore" if "restore" in b else "plain"},
                                   {"failed": "oracle:resume", "detail": f"line-up {kinds} segments {comp} boundaries {b}: differs in {d}",
-                                   "case": {"spec": spec, "segments": comp, "boundaries": list(b)}})
+                                   "case": {"spec": spec, "segments": comp, "boundaries": list(b), "prefilled_folder": prefilled}})
         shutil.rmtree(folder, ignore_errors=True)
+    return count
+
+
+def early_stop_resume(chk, stats):
+    """Configurations WITH a convergence precision (0 included): the uninterrupted calibrate(n) stops after batch k < n; cutting
+    it after any batch a < k (plain second call, or checkpoint + restore) and asking for the remaining n - a batches must stop
+    after the same batch k with the same history."""
+    rng = chk.rng
+    n = 6
+    count = found = tries = 0
+    want = 6 if chk.tier == "quick" else 40
+    while found < want and tries < 40 * want:
+        tries += 1
+        base = cc.gen_case(rng, 0, max_ops=1, max_samplers=3, bs_max=2, e_max=2, prec_prob=1)
+        base["cfg"].update(prec=rng.choice([0, 0, 1, 2, base["cfg"]["prec"]]), saving=False)
+        base["palette"] = cc.gen_palette(rng, base["cfg"]["prec"]) + [5.0, 3.0]
+        twin = dict(base, ops=[["calibrate", n]])
+        tv = cc.run_case(twin)["views"][-1]
+        k = tv["batchidx"]
+        if not 2 <= k < n:
+            continue
+        found += 1
+        stats[f"early-stop:prec={base['cfg']['prec']}"] += 1
+        for a in range(1, k):
+            for kind in ("plain", "restore"):
+                ops = [["calibrate", a]] + ([["checkpoint"], ["restore"]] if kind == "restore" else []) + [["calibrate", n - a]]
+                c = dict(base, ops=ops)
+                v = cc.run_case(c)["views"][-1]
+                count += 1
+                stats["early-stop:cuts"] += 1
+                if not cf.same_history(v, tv):
+                    chk.violation({"kind": "oracle", "clause": "token-resume-differs", "with": "convergence-precision"},
+                                  {"failed": "oracle:resume", "detail": f"precision {base['cfg']['prec']}: uninterrupted calibrate({n}) stops "
+                                   f"after batch {k}; cut after {a} ({kind}) then calibrate({n - a}) ends after batch {v['batchidx']}: "
+                                   f"differs in {cf.diff_history(v, tv)}", "case": c})
     return count
 
 
@@ -195,6 +238,10 @@ def run(chk, replay=None):
         if "spec" in case:
             folder = rl.scratch("c05_replay")
             twin = rl.run_segments(case["spec"], [sum(case["segments"])], [])
+            if case.get("prefilled_folder"):
+                other = {"kinds": [("uniform", 2), ("halton", 1)], "nparams": case["spec"]["nparams"], "E": 1, "seed": 99,
+                         "loss": next(x for x in ("fourier", "minkowski", "msm") if x != case["spec"]["loss"]), "rl": False}
+                rl.run_segments(other, [2], [], folder=str(folder))
             h = rl.run_segments(case["spec"], case["segments"], case["boundaries"], folder=str(folder))
             print("differs in", rl.diff(twin, h))
             return 1 if rl.diff(twin, h) else 0
@@ -209,6 +256,7 @@ def run(chk, replay=None):
     n_real += class_cut_sweep(chk, extra) if not replay else 0
     n_real += nan_runs(chk, extra) if not replay else 0
     n_tok += crash_resume(chk, extra) if not replay else 0
+    n_tok += early_stop_resume(chk, extra) if not replay else 0
     stats.update(extra)
     cov = {
         "evaluations": len(cases) + n_tok + n_real, "distinct": len(keys) + n_tok + n_real,
@@ -217,7 +265,7 @@ def run(chk, replay=None):
                 "composition of n (2..4 quick, 2..6 thorough) with every boundary kind in {second calibrate call, checkpoint+restore} "
                 "against the uninterrupted twin; (c) real built-in samplers (Halton, R-sequence, uniform, best-batch, PSO, CORS, and one "
                 "of RF/XGBoost/GP), real model and losses: sampled compositions x boundary kinds, plus for each of the nine classes X the "
-                "line-up [uniform, X] cut by checkpoint+restore after every batch; histories compared bitwise with the uninterrupted twin; non-trivial = a restore succeeded / a cut was made",
+                "line-up [uniform, X] cut by checkpoint+restore after every batch; histories compared bitwise with the uninterrupted twin; half of the real runs in a folder that already holds the checkpoint of another calibration; (d) token configurations with a convergence precision (0 included) cut before the stopping batch; non-trivial = a restore succeeded / a cut was made",
         "samples": cf.sample_cases(cases, obs),
         "traces_validated_against_impl": len(cases) - len(bad), "model_impl_disagreements": len(bad),
         "composition_runs_token": n_tok, "composition_runs_real": n_real,
